@@ -608,7 +608,7 @@ PROPS["C20"] = {
 PROPS["C02"] = {
     "title": "Curve-curve intersection is sound and complete in either argument order",
     "gen_modules": ["Consts", "Basis", "Section", "Bounds", "CurveBounds", "Lines", "FatLine", "CurveClip", "CurveLine", "Overlaps", "LinearFallback"],
-    "props_modules": ["C02", "C02Overlap"],
+    "props_modules": ["C02", "C02Overlap", "C13"],
     "corr_n": (20000, 200000),
     "search_n": (3000, 60000),
     "extended_factor": 2,
